@@ -26,7 +26,8 @@ Rules checked
       the same feature flags, uid/gid fit the uid width selected by the flags,
       mtime != 2^64-1, mtime granularity as selected by the flags.
   R4  FILENAME: 1..255 bytes, no '/', not "." or ".."; names strictly ascending
-      within a directory (bytewise, as strcmp) -- class order/filenames-unsorted.
+      within a directory (bytewise, as strcmp) -- class order/filenames-unsorted; with
+      --unsorted-ok (archives made from a tar stream) the order is not judged.
   R5  GOODBYE of a directory with children c_0..c_{k-1}: k+1 items; the last is
       the tail: hash = TAIL_MARKER, offset = goodbye_start - entry_start,
       size = size of the GOODBYE element.  The first k items are one per child:
